@@ -43,10 +43,10 @@ Record jconfig := mkJCfg {
   jc_limit : N;            (* Config.StateHistory, 0 = keep everything *)
   jc_full : bool;          (* buffer.full(): WriteBufferSize 0 (true) / huge (false) *)
   jc_maxdiff : nat;        (* maxDiffLayers *)
-  (* legacy flag: true = the code before /repo 045cec3993 (Recover leaves the journal of
-     the last shutdown in place); kept for the refutation witness, the correspondence
-     runs with false *)
-  jc_legacy_recover : bool }.
+  (* when Database.Recover drops the journal of the last shutdown: 0 = never (the code
+     before /repo 045cec3993), 1 = after the revert loop (045cec3993), 2 = before the
+     first revert.  0 and 1 are kept for the refutation witnesses. *)
+  jc_recover : N }.
 
 Record world := mkW {
   w_cfg : jconfig;         (* StateHistory limit, buffer.full(), maxDiffLayers *)
@@ -308,35 +308,38 @@ Fixpoint recover_loop (fuel : nat) (w : world) (root : N) : list ev * outc :=
       end
   end.
 
-(* Database.Recover: the key-value store is synced (durable here anyway), then the
-   histories above the new disk layer are removed *)
+(* journal.go dropJournal: the journal file is removed and the directory fsync'ed, then
+   the blob is deleted *)
+Definition drop_journal (w0 : world) : list ev * world :=
+  let '(ea, wa) :=
+    match (if w_jfile w0 then w_jlive w0 else None) with
+    | Some _ => let wa1 := set_jfile w0 None (w_jdur w0) in
+                let wa2 := set_jfile w0 None None in
+                ([(EV_JREMOVE, wa1); (EV_JDIR_SYNC, wa2)], wa2)
+    | None => ([], w0)
+    end in
+  match w_kvj wa with
+  | Some _ => let wb := set_kvj wa None in (ea ++ [(EV_DEL_JOURNAL, wb)], wb)
+  | None => (ea, wa)
+  end.
+
+(* Database.Recover: (mode 2) the journal is dropped and the key-value store synced, the
+   histories are applied one by one, (mode 1) the journal is dropped, the key-value store
+   is synced (durable here anyway), then the histories above the new disk layer are removed *)
 Definition recover (w : world) (root : N) : list ev * outc :=
   if w_ro w then ([], Fail 3 w) else
   if negb (recoverable w root) then ([], Fail 4 w) else
-  match recover_loop (S (N.to_nat (disk_id (w_dk w)))) w root with
+  let '(ed, wd) := if jc_recover (w_cfg w) =? 2 then drop_journal w else ([], w) in
+  match recover_loop (S (N.to_nat (disk_id (w_dk wd)))) wd root with
   | (e1, Done w0) =>
-      (* journal.go dropJournal (since 045cec3993): the journal file is removed and the
-         directory fsync'ed, then the blob is deleted; BEFORE the histories are cut *)
-      let '(ej, w') :=
-        if jc_legacy_recover (w_cfg w0) then ([], w0) else
-        let '(ea, wa) :=
-          match (if w_jfile w0 then w_jlive w0 else None) with
-          | Some _ => let wa1 := set_jfile w0 None (w_jdur w0) in
-                      let wa2 := set_jfile w0 None None in
-                      ([(EV_JREMOVE, wa1); (EV_JDIR_SYNC, wa2)], wa2)
-          | None => ([], w0)
-          end in
-        match w_kvj wa with
-        | Some _ => let wb := set_kvj wa None in (ea ++ [(EV_DEL_JOURNAL, wb)], wb)
-        | None => (ea, wa)
-        end in
-      let e1 := e1 ++ ej in
+      let '(ej, w') := if jc_recover (w_cfg w0) =? 1 then drop_journal w0 else ([], w0) in
+      let e1 := ed ++ e1 ++ ej in
       let f := w_fr w' in
       let n := disk_id (w_dk w') in
       if (fr_head f <? n) || (n <? fr_tail f) then (e1, Fail 9 w') else
       if fr_head f =? n then (e1, Done w') else
       let w2 := fr_trunc_head w' n in (e1 ++ [(EV_TRUNC_HEAD, w2)], Done w2)
-  | fl => fl
+  | (e1, Fail e w') => (ed ++ e1, Fail e w')
   end.
 
 (* Recover to the ancestor k states below the disk layer, not beyond the tail: the
